@@ -59,17 +59,11 @@ def stageJ (named : Bool) (names : Option (List Bytes)) (rows : Option (List Byt
     else Json.mkObj [("rows", natListList r)]
   | _, _ => errJ "other:no-column"
 
-/-- the property's reading of a pipeline: names and sequence column stage by stage -/
-def specStages : List Bytes → List Bytes → List PStep → Option (List (List Bytes × List Bytes))
-  | n, r, [] => some [(n, r)]
-  | n, r, s :: ss =>
-    match specStepSeq r s with
-    | none => none
-    | some r' =>
-      let n' := match s with
-        | .idx p => selRows p n
-        | _ => n
-      (specStages n' r' ss).map (fun rest => (n, r) :: rest)
+def perrJ : PErr → Json
+  | .assertion => errJ "other:AssertionError"
+  | .index => errJ "other:IndexError"
+  | .encoding => errJ "encoding"
+  | .noColumn => errJ "other:AttributeError"
 
 def handle (op : String) (j : Json) : Except String Json := do
   match op with
@@ -113,10 +107,10 @@ def handle (op : String) (j : Json) : Except String Json := do
     let named ← getBool j "named"
     let steps ← getPSteps j
     let names := (List.range rows.length).map (fun i => [i])
-    let t0 : Table := ⟨[("name", names), ("sequence", rows)], []⟩
+    let t0 : Table := ⟨rows.length, [("name", names), ("sequence", rows)], []⟩
     let m := match runPipe Gen.C14.ASCII Gen.C14.codon t0 steps with
-      | some ts => Json.mkObj [("stages", Json.arr (ts.map (fun t => stageJ named (t.get "name") (t.get "sequence"))).toArray)]
-      | none => errJ "other:model-none"
+      | .ok ts => Json.mkObj [("stages", Json.arr (ts.map (fun t => stageJ named (t.get "name") (t.get "sequence"))).toArray)]
+      | .error e => perrJ e
     let s := match specStages names rows steps with
       | some st => Json.mkObj [("stages", Json.arr (st.map (fun p => stageJ named (some p.1) (some p.2))).toArray)]
       | none => errJ "outside-domain"
@@ -133,9 +127,11 @@ def handle (op : String) (j : Json) : Except String Json := do
         let locs ← l.mapM (fun x => match x with
           | [c, p, st] => pure (c, p, st)
           | _ => throw "bad location")
-        pure (windows sizes (← getNat j "flank") locs stranded)
+        pure (windows Gen.C14.giFlags sizes (← getNat j "flank") locs stranded)
       else do pure (⟨← getIvs j, stranded⟩ : GI))
-    let g := steps.foldl GI.step g0
+    match runG Gen.C14.giFlags g0 steps with
+    | none => pure (reply (errJ "other:IndexError") (some (errJ "outside-domain")))
+    | some g =>
     let m := rowsJ T (getitem T seqs g)
     let s := match Base.omap (decode T) seqs with
       | some t => Json.mkObj [("rows", natListList (if stranded then specStrand t g.ivs else relevant t g.ivs)),
